@@ -13,6 +13,8 @@
    that repair, used only by the refutation witness of theorem 5. *)
 From Coq Require Import List NArith Bool.
 From GL Require Import Store.Lifecycle Store.LifecycleLocal Store.LifecycleProofs.
+From GL Require Import Base.Bytes Store.FileStorage Store.FileStorageProofs.
+From Coq Require Import ZArith.
 Import ListNotations.
 Open Scope nat_scope.
 
@@ -219,3 +221,152 @@ Example C18_ro_quiesces_nonvacuous :
   reachable s /\ exists db, nth_error (dbs s) 0 = Some db /\ dmode db = RSwitched /\ dseek db = true /\ dbg db = true /\
                             iters_released db = true.
 Proof. split; [eexists _, _, _, _; reflexivity|]. eexists; vm_compute; repeat split; reflexivity. Qed.
+
+(* ================================================================ the real file storage (leveldb/storage/file_storage.go)
+
+   Model: Store/FileStorage.v (names, SetMeta / GetMeta as sequences of file-system operations on a directory,
+   the storage object with its flock and in-process lock).  The crash theorems are in Props/C04FS.v. *)
+
+(* 7. File names.  fsParseName (fsGenName fd) = fd and fsParseName (fsGenOldName fd) = fd for EVERY descriptor
+      whose number is an int64 (FileDescOk needs Num >= 0; the round trip also holds for negative numbers, which
+      %06d prints with the sign inside the width); distinct descriptors have distinct names. *)
+Theorem C18_name_roundtrip : forall fd, int64_ok (fd_num fd) = true ->
+  parse_name (gen_name fd) = Some fd /\ parse_name (gen_old_name fd) = Some fd /\
+  (forall fd', int64_ok (fd_num fd') = true -> gen_name fd' = gen_name fd -> fd' = fd).
+Proof. exact name_roundtrip. Qed.
+Print Assumptions C18_name_roundtrip.
+
+(* Of the names the storage itself writes into its directory (descriptor names, old table names, CURRENT,
+   CURRENT.bak, CURRENT.<n>, LOCK, LOG, LOG.old) fsParseName accepts exactly the descriptor names and returns the
+   descriptor they were generated from: never a wrong descriptor. *)
+Theorem C18_stored_names_never_wrong_fd : forall l fd,
+  stored_name l -> parse_name l = Some fd -> l = gen_name fd \/ l = gen_old_name fd.
+Proof. exact parse_stored_name. Qed.
+Print Assumptions C18_stored_names_never_wrong_fd.
+
+(* Whatever fsParseName accepts (any byte string: leading white space, a sign, a tail cut at white space, trailing
+   garbage after it are all accepted by fmt.Sscanf) carries an int64, and generating the name of the result and
+   parsing it again gives the same descriptor (so GetMeta's repair writes a CURRENT that reads back the same). *)
+Theorem C18_parsed_names_regenerate : forall l fd,
+  parse_name l = Some fd -> int64_ok (fd_num fd) = true /\ parse_name (gen_name fd) = Some fd.
+Proof. intros l fd H. split; [exact (parse_name_int64 l fd H)|exact (parse_name_regen l fd H)]. Qed.
+Print Assumptions C18_parsed_names_regenerate.
+
+(* Numbers >= 2^63: a digit string whose value does not fit an int64 is not parsed in either form (List does not
+   see such a file).  Longer digit strings / more leading zeros denote the SAME descriptor as the canonical
+   name (List reports it, Open looks for the canonical name only). *)
+Theorem C18_name_overflow_not_parsed : forall ds rest,
+  digits_ok ds -> ds <> [] -> stops rest -> (two63 <= dval 0 ds)%N ->
+  parse_name (ds ++ rest) = None /\ parse_name (s_MANIFEST ++ ds ++ rest) = None.
+Proof. exact parse_overflow. Qed.
+Print Assumptions C18_name_overflow_not_parsed.
+
+Theorem C18_name_leading_zeros_alias : forall k z t,
+  (0 <= z)%Z -> int64_ok z = true -> t <> TManifest ->
+  parse_name (repeat 48%N k ++ gen_name (FD t z)) = Some (FD t z) /\
+  parse_name (s_MANIFEST ++ repeat 48%N k ++ fmt_d06 z) = Some (FD TManifest z).
+Proof. exact parse_leading_zeros. Qed.
+Print Assumptions C18_name_leading_zeros_alias.
+
+(* 8. GetMeta on a storage opened read-only issues NO file-system operation, in any directory state (this is the
+      guard the seeded change seeded/C18 removes); the directory and the durable file system are unchanged; the
+      answer is the one a read-write storage gives. *)
+Theorem C18_getmeta_readonly_pure :
+  (forall v, snd (get_meta_ops true v) = []) /\
+  (forall v, snd (get_meta true v) = v) /\
+  (forall s, snd (get_meta_fs true s) = s) /\
+  (forall ro v, fst (get_meta_ops ro v) = get_meta_result v).
+Proof. exact getmeta_readonly_pure. Qed.
+Print Assumptions C18_getmeta_readonly_pure.
+
+(* OpenFile read-only is pure only when the LOCK file exists — PARTIAL: newFileLock retries with O_CREATE, so a
+   read-only OpenFile of a directory without LOCK creates it (and fails on a read-only medium). *)
+Theorem C18_openfile_readonly_pure_partial : forall v, has v s_LOCK = true -> open_file_view true v = v.
+Proof. exact open_file_ro_pure. Qed.
+Print Assumptions C18_openfile_readonly_pure_partial.
+
+Theorem C18_openfile_readonly_creates_lock_refuted : open_file_view true [] = [(s_LOCK, [])].
+Proof. exact open_file_ro_creates_lock. Qed.
+Print Assumptions C18_openfile_readonly_creates_lock_refuted.
+
+(* 9. The read-write repair is a fixpoint, for EVERY directory: on the repaired directory GetMeta gives the same
+      answer and its repair operations change nothing; there are none when every pending file has a name in the
+      form %d prints. *)
+Theorem C18_getmeta_repair_idempotent : forall v,
+  let v' := vapply_all v (snd (get_meta_ops false v)) in
+  fst (get_meta_ops false v') = fst (get_meta_ops false v) /\
+  vapply_all v' (snd (get_meta_ops false v')) = v' /\
+  (pend_names v' = [] -> snd (get_meta_ops false v') = []).
+Proof. exact get_meta_repair_fixpoint. Qed.
+Print Assumptions C18_getmeta_repair_idempotent.
+
+(* "no further repair" is FALSE in general: with a file CURRENT.05 every GetMeta re-issues Remove(CURRENT.5),
+   which fails and is logged, for ever; the file itself is never removed. *)
+Theorem C18_getmeta_no_further_repair_refuted :
+  let v' := vapply_all ex_noncanon_dir (snd (get_meta_ops false ex_noncanon_dir)) in
+  v' = ex_noncanon_dir /\ snd (get_meta_ops false v') = [OUnlink (pend_name 5%Z)] /\
+  fst (get_meta_ops false v') = GOk (FD TManifest 1%Z).
+Proof. exact get_meta_repair_reissued. Qed.
+Print Assumptions C18_getmeta_no_further_repair_refuted.
+
+(* 10. One owner.  In every state reachable by OpenFile / Lock / Unlock / Close / method calls on one directory:
+       while a read-write storage is open every OpenFile is refused (flock) and changes nothing; readers share
+       the directory and exclude the writer; a second Lock returns ErrLocked; Unlock of a lock that is not the
+       current one (released, or a newer one was granted) changes nothing; Close releases the flock, after it
+       every call reports ErrClosed (ErrInvalidFile first where that guard comes first), a second Close too,
+       and the directory can be opened again. *)
+Theorem C18_lock_single_owner : forall p s st ro,
+  freach p -> nth_error (p_stors p) s = Some st -> so_ro st = false -> so_closed st = false ->
+  p_exists p = true -> fstep p (FOpenFile ro) = (p, SErrFlock, None).
+Proof. exact fs_single_owner. Qed.
+Print Assumptions C18_lock_single_owner.
+
+Theorem C18_lock_readers_exclude_writer : forall p s st,
+  freach p -> nth_error (p_stors p) s = Some st -> so_ro st = true -> so_closed st = false -> p_exists p = true ->
+  snd (fst (fstep p (FOpenFile false))) = SErrFlock /\ snd (fst (fstep p (FOpenFile true))) = SOk.
+Proof. exact fs_readers_exclude_writer. Qed.
+Print Assumptions C18_lock_readers_exclude_writer.
+
+Theorem C18_lock_second_lock : forall p s st id,
+  nth_error (p_stors p) s = Some st -> so_closed st = false -> so_ro st = false -> so_slock st = Some id ->
+  fstep p (FLock s) = (p, SErrLocked, None).
+Proof. exact fs_second_lock. Qed.
+Print Assumptions C18_lock_second_lock.
+
+Theorem C18_lock_unlock_relock : forall p s st,
+  nth_error (p_stors p) s = Some st -> so_closed st = false -> so_ro st = false -> so_slock st = None ->
+  exists l p1, fstep p (FLock s) = (p1, SOk, Some l) /\
+    snd (fst (fstep p1 (FLock s))) = SErrLocked /\
+    snd (fst (fstep (fst (fst (fstep p1 (FUnlock l)))) (FLock s))) = SOk.
+Proof. exact fs_lock_then_unlock. Qed.
+Print Assumptions C18_lock_unlock_relock.
+
+Theorem C18_lock_stale_unlock_harmless : forall p s st id,
+  nth_error (p_stors p) s = Some st -> so_slock st <> Some id -> fstep p (FUnlock (LK s id)) = (p, SOk, None).
+Proof. exact fs_stale_unlock_harmless. Qed.
+Print Assumptions C18_lock_stale_unlock_harmless.
+
+Theorem C18_storage_close : forall p s st,
+  freach p -> nth_error (p_stors p) s = Some st -> so_closed st = false -> so_ro st = false -> p_exists p = true ->
+  let p1 := fst (fst (fstep p (FClose s))) in
+  snd (fst (fstep p (FClose s))) = SOk /\
+  p_os p1 = OsFree /\
+  fstep p1 (FClose s) = (p1, SErrClosed, None) /\
+  fstep p1 (FLock s) = (p1, SErrClosed, None) /\
+  (forall m, snd (fst (fstep p1 (FMeth s m))) =
+             match m with
+             | MSetMeta false | MOpen false | MCreate false | MRemove false | MRename false _ => SErrInvalidFile
+             | MRename true true | MLog => SOk
+             | _ => SErrClosed
+             end) /\
+  forall ro, snd (fst (fstep p1 (FOpenFile ro))) = SOk.
+Proof. exact fs_close. Qed.
+Print Assumptions C18_storage_close.
+
+(* non-vacuity: a reachable state with an open read-write storage holding its lock; a read-only OpenFile of a
+   missing directory fails without creating it *)
+Example C18_file_storage_nonvacuous :
+  freach ex_proc /\ p_os ex_proc = OsExcl /\ p_exists ex_proc = true /\
+  nth_error (p_stors ex_proc) 0 = Some (ST false false (Some 0%N) 1%N) /\
+  snd (fst (fstep (PR false OsFree []) (FOpenFile true))) = SErrNotExist.
+Proof. exact ex_proc_reachable. Qed.
